@@ -6,7 +6,7 @@ import json, random
 import vlib
 import wireb_common as W
 
-NEED = ["grease-ext", "grease-suite", "key-share", "ech", "psk", "psk-dropped", "ticket", "padded-A", "unpadded-A", "padding-added",
+NEED = ["grease-ext", "grease-suite", "key-share", "ech", "ech-enc-not-32", "psk", "psk-dropped", "ticket", "padded-A", "unpadded-A", "padding-added",
         "sni-length-differs", "sni-length-same", "same-total", "blunt", "alwayspad", "realpsk", "C", "refused", "unrecognised-ext"]
 
 
@@ -40,12 +40,18 @@ def select(ctx, scns, rnd):
         out.append(rnd.choice(adds[k]))
     out += rnd.sample(cust, min(200, len(cust)))
     out += rnd.sample(by.get("capture", []), min(48, len(by.get("capture", []))))
+    # GREASE-ECH captures: every (enc size, payload size) pair once, parrot / flags / sni class at random
+    ech = {}
+    for s in by.get("echcapture", []):
+        ech.setdefault((s["src"]["k"], s["src"]["m"]["i"]), []).append(s)
+    for k in sorted(ech):
+        out.append(rnd.choice(ech[k]))
     return out
 
 
 def build_cases(ctx, scns, cspecs, rnd):
     # base hellos for the crafted captures: one real wire hello per parrot
-    need_cap = sorted({s["src"]["id"] for s in scns if s["src"]["kind"] == "capture"})
+    need_cap = sorted({s["src"]["id"] for s in scns if s["src"]["kind"] in ("capture", "echcapture")})
     capL = {i: rnd.randrange(8, 60) for i in need_cap}
     base = {}
     if need_cap:
@@ -75,9 +81,12 @@ def build_cases(ctx, scns, cspecs, rnd):
         else:
             L = capL[src["id"]]
             L2 = {"same": L, "shorter": max(1, L - d), "longer": L + d}[s["sni"]]
-            where = "end" if src["where"] == "end" else 3
             c["sni"], c["sni2"] = "", W.sni_name(L2, ctx.seed + 17)
-            c["src"] = {"kind": "capture", "id": src["id"], "raw": W.with_padding(base[src["id"]], src["k"], where), "recvers": 0x0301}
+            if src["kind"] == "capture":
+                raw = W.with_padding(base[src["id"]], src["k"], "end" if src["where"] == "end" else 3)
+            else:
+                raw = W.with_ech_sizes(base[src["id"]], src["k"], src["m"]["i"])
+            c["src"] = {"kind": "capture", "id": src["id"], "raw": raw, "recvers": 0x0301}
         cases.append(c)
     return cases
 
@@ -119,6 +128,8 @@ def brief(c):
         b["mutation"] = s["m"]
     if s["kind"] == "capture":
         b["padding"] = s["k"]; b["where"] = s["where"]
+    if s["kind"] == "echcapture":
+        b["ech_enc_len"] = s["k"]; b["ech_payload_len"] = s["m"]["i"]
     if s["kind"] == "randomized":
         b["seed_slot"] = s["k"]
     return b
@@ -201,7 +212,7 @@ def run(ctx):
     if not W.tagged(mc, "ABS"):
         raise vlib.Machinery("Fingerprint_MC never built a full-size abstract hello (Norm sanity vacuous)")
     kinds = {s["src"]["kind"] for s in scns}
-    if kinds != {"parrot", "randomized", "custom", "capture"} or not cspecs:
+    if kinds != {"parrot", "randomized", "custom", "capture", "echcapture"} or not cspecs:
         raise vlib.Machinery("Fingerprint_MC grid incomplete: %s, %d custom specs" % (kinds, len(cspecs)))
     chosen = select(ctx, scns, rnd)
     cases = build_cases(ctx, chosen, cspecs, rnd)
@@ -253,7 +264,8 @@ def run(ctx):
         sample.append({"scenario": brief(c), "len_a": len(e["a"]), "len_b": len(e["b"]), "len_c": len(e["c"]), "ext_types_b": W.ext_types(e["b"]) if e["b"] else []})
     cov = {"evaluations": len(rows), "distinct_nontrivial": len(rows) - len(skipped),
            "rule": "TLC grid: source {38 parrots, 3 randomized ids x 8 seed slots (seeds from VERIF_SEED), %d TLC-generated custom specs "
-                   "(drop/swap/add/field mutants of the dumped parrot specs), captures with crafted padding {1,2,5,33,200} x {end, middle}} x 8 flag "
+                   "(drop/swap/add/field mutants of the dumped parrot specs), captures with crafted padding {1,2,5,33,200} x {end, middle}, captures with GREASE-ECH enc sizes {1,31,33,65,97,133} x payload sizes "
+                   "{144,16,100,250}} x 8 flag "
                    "combinations x sni class {same, shorter, longer} = %d points; %s; evaluations = scenarios whose A, B, C wire hellos were "
                    "judged by TLC (Norm(A)=Norm(B), lengths, padding policy, Norm(C)=Norm(B)); distinct = those with a valid A"
                    % (len(cspecs), len(scns), "quick: seeded sample keeping every parrot x flag combination" if ctx.quick else "all points"),
